@@ -58,11 +58,11 @@ func checkBudget(r *Run, prog *Program, a *Anchors, pfx string) {
 	for _, fa := range fas {
 		if isFieldOf(fa, grammarPath, "parser", "Stats") && fa.Kind == "write" {
 			statsPtrWrites++
-			r.Check(pfx+".counter-census", fa.Fn.Name()+":parser.Stats", prog.pos(fa.Instr.Pos()), fa.Fn == newParser, "parser.Stats (which holds the step counter) is replaced outside newParser")
+			r.Check(pfx+".counter-census", fa.Fn.Name()+":parser.Stats", prog.pos(fa.Instr.Pos()), ctorPart(prog, newParser, fa.Fn), "parser.Stats (which holds the step counter) is replaced outside newParser")
 			// every parse starts counting at zero: the record is a fresh allocation of newParser
 			root, _ := rootOf(fa.Val)
 			al, isAlloc := root.(*ssa.Alloc)
-			fresh := isAlloc && al.Parent() == newParser
+			fresh := isAlloc && ctorPart(prog, newParser, al.Parent())
 			r.Check(pfx+".counter-census", fa.Fn.Name()+":parser.Stats:fresh", prog.pos(fa.Instr.Pos()), fresh, "the record holding the step counter is not a fresh allocation of newParser ("+describeRoot(prog, fa.Val)+"): a parse could start with a count left over from an earlier one")
 		}
 	}
@@ -151,7 +151,7 @@ func checkBudget(r *Run, prog *Program, a *Anchors, pfx string) {
 		switch {
 		case rd.Fn == counter:
 			ok = true
-		case rd.Fn == newParser:
+		case ctorPart(prog, newParser, rd.Fn):
 			ok = true
 		case rd.Fn.Parent() == maxExprOpt:
 			ok = true
@@ -169,11 +169,15 @@ func checkBudget(r *Run, prog *Program, a *Anchors, pfx string) {
 					_, ok = ld.X.(*ssa.FreeVar)
 				}
 			}
-		case w.Fn == newParser:
+		case ctorPart(prog, newParser, w.Fn):
 			if c, isC := w.Val.(*ssa.Const); isC && c.Value != nil {
 				if u, exact := constant.Uint64Val(c.Value); exact && u == ^uint64(0) {
 					ok = true
 				}
+			}
+			if !ok {
+				// not the constant itself: the paths of newParser decide (zero → largest value, anything else unchanged)
+				ok = zeroMappingOnPaths(prog, newParser, budgetField) == ""
 			}
 		}
 		r.Check(pfx+".counter-census", w.Fn.Name()+":maxExprCnt:write", prog.pos(w.Instr.Pos()), ok, "the budget is written with something other than the option's own parameter (unmodified) or the `unlimited` constant in newParser")
@@ -467,6 +471,10 @@ func checkBudgetTransport(r *Run, prog *Program, a *Anchors, newParser, maxExprO
 				}
 			}
 		}
+	}
+	if !okOrder {
+		// the same on the paths of newParser, whatever it is split into
+		okOrder = zeroMappingOnPaths(prog, newParser, budgetField) == ""
 	}
 	r.Check(pfx+".transport", "newParser:options-then-zero-mapping", prog.pos(newParser.Pos()), okOrder, "newParser must apply the options first and only then map a zero budget to `unlimited` (so that MaxExpressions(0) means unlimited)")
 	// setOptions applies every option to the parser; Parse passes its own options and the table g
